@@ -296,7 +296,7 @@ func repoKeysScanner(ctx context.Context, contextStore context2.Stores, repo mod
 				Logger(zap.NewNop()), // mute verbosity on retrieving bundle details
 			)
 
-			keys, erk := bundleKeys(ctx, b, bundle.LeafSize, db, lg)
+			keys, erk := bundleKeys(ctx, b, bundle.LeafSize, db, lg, options.resume)
 			if erk != nil {
 				return erk
 			}
@@ -560,7 +560,7 @@ func insistantBackoff() backoff.BackOff {
 	return withRetry
 }
 
-func bundleKeys(ctx context.Context, b *Bundle, size uint32, db kvStore, logger *zap.Logger) ([]string, error) {
+func bundleKeys(ctx context.Context, b *Bundle, size uint32, db kvStore, logger *zap.Logger, resumed bool) ([]string, error) {
 	if err := backoff.Retry(func() error {
 		return unpackBundleFileList(ctx, b, false, defaultBundleEntriesPerFile)
 	},
@@ -589,10 +589,13 @@ func bundleKeys(ctx context.Context, b *Bundle, size uint32, db kvStore, logger 
 			return nil, err
 		}
 
-		if found {
+		if found && !resumed {
 			// the root key is found in store, no need to unpack it: we necessarily have all its leaves in store
 			continue
 		}
+		// NOTE: when resuming an interrupted job, the store has been reloaded from the index chunks uploaded so far.
+		// A root key may have been uploaded with one chunk while its leaves were still waiting for the next one:
+		// the leaves of a known root must be indexed again.
 
 		keys = append(keys, key)
 
